@@ -55,6 +55,38 @@ def rule_r1(chk, db):
                         "done() is reachable from the copy without the copy having succeeded: a failed body would still be committed")
 
 
+LIMITERS = ("take", "take_while", "take_until", "limit", "truncate", "split_to", "split_off")
+
+
+def rule_r2b(chk, db):
+    """the writers copy the request body as it is: no adapter on the way from `input.body` to the copy cuts the stream off after a number of
+    bytes (a stream that is not polled to its end never reports the error that arrives after the last data frame: bad final chunk signature,
+    missing final chunk, transport error - and the upload is committed)"""
+    from . import c18
+    from ..roles import Roles
+    n = 0
+    for name, b in sorted(c18.s3_methods(db, Roles(db)).items()):
+        for bi, t in b.calls():
+            if short(callee_def(t)) != "copy_bytes" or not t["args"]:
+                continue
+            sl = flow.backward(b, t["args"][0], at=bi)
+            if not any(f == "body" and a.endswith("Input") for a, f in sl.fields):
+                continue
+            n += 1
+            cut = []
+            for _, x, _ in sl.calls:
+                d = callee_def(x)
+                cb = db.bodies.get(x["callee"].get("resolved") or "") or db.bodies.get(d)
+                if short(d) in LIMITERS and ("stream" in d.lower() or "Stream" in d or "bytes" in d.lower()):
+                    cut.append(short(d))
+                elif cb is not None and cb.crate == "s3s_fs" and "Stream" in cb.raw.get("ret", "") and any(cb.locals[l] in ("usize", "u64") for l in range(1, cb.argc + 1)):
+                    cut.append(short(d))        # a stream adapter of the backend that takes a length (bytes_stream)
+            chk.verdict(not cut, "R2", "body-copied-whole@%s#%d" % (short(name), bi), b.loc(bi),
+                        "the request body passes %s before it is copied: the stream is cut off after a byte count instead of being read to its end, so an "
+                        "error after the last data frame is never seen and the object is committed" % sorted(set(cut)))
+    chk.floor("R2.body", n, 2, "copies of a request body into a temp file (put_object, upload_part)")
+
+
 def rule_r2(chk, db):
     b = db.body("s3s_fs::utils::copy_bytes")
     if b is None:
@@ -136,6 +168,23 @@ def rule_r3(chk, db, conf):
     inner = inline.inlined(db, inner)       # `done()` may be staged (`ensure_dest_dir().await?; self.commit().await`)
     ren = [(bi, t) for bi, t in inner.calls() if short(callee_def(t)) == "rename"]
     chk.verdict(len(ren) == 1, "R3", "done.rename", inner.loc(ren[0][0]) if ren else inner.loc(), "done() performs %d renames (expected one)" % len(ren))
+    # the commit is the rename and nothing else: no other effect of done() touches the destination (removing the previous object "to make
+    # room" turns the commit into remove-then-rename with an await in between: a request dropped there loses the old object)
+    DESTRUCTIVE = ("remove_file", "remove_dir", "remove_dir_all", "write", "create", "create_new", "copy", "set_len", "truncate", "hard_link", "symlink")
+    for bi, t in inner.calls():
+        nm = short(callee_def(t))
+        d_ = callee_def(t)
+        if nm not in DESTRUCTIVE or not ("fs::" in d_ or "File" in d_):
+            continue
+        hit = False
+        for a in t["args"]:
+            sl_ = flow.backward(inner, a, at=bi)
+            f_ = {f for a_, f in sl_.fields if a_ in ("FileWriter",)} | ({"dest_path"} if any(short(callee_def(x)) == "dest_path" for _, x, _ in sl_.calls) else set())
+            if "dest_path" in f_:
+                hit = True
+        chk.verdict(not hit, "R3", "done.only-rename-touches-destination:%s" % nm, inner.loc(bi),
+                    "done() applies %s to the destination path besides the rename: the commit is no longer one atomic step (a request dropped between "
+                    "the two leaves the key without its previous content)" % nm)
     for bi, t in ren:
         s0 = flow.backward(inner, t["args"][0], at=bi)
         s1 = flow.backward(inner, t["args"][1], at=bi)
@@ -360,6 +409,7 @@ def run(chk, db, tier):
     chk.rule("R4", "distinct temp names from an atomic fetch_add; cleanup pattern agrees with the naming")
     chk.guard("R1", rule_r1, db)
     chk.guard("R2", rule_r2, db)
+    chk.guard("R2", rule_r2b, db)
     chk.guard("R3", rule_r3, db, conf)
     chk.guard("R4", rule_r4, db, conf)
     # prerequisite for "a rejected upload leaves the previous content": the body the backend copies ends only because its source ended - an
